@@ -6,6 +6,7 @@ import MlaModel.Encrypt
 import MlaModel.ReaderS
 import MlaModel.ArchiveS
 import MlaModel.Crypto.Gcm
+import MlaModel.Native
 import MlaModel.Crypto.Sha2
 open Lean
 namespace Driver
@@ -26,21 +27,8 @@ def cmdRepairRun (j : Json) : Json :=
               ("accepted", Json.bool (rs.all Res.isOk)),
               ("files", Json.arr (files.map fun (n, d) => Json.mkObj [("name", jhex n), ("data", jhex d)]).toArray)]
 
-/-! Encryption primitives for the driver.
-    `native`: AES-256-GCM from MlaModel.Crypto with key + 8-byte archive nonce; keystream per chunk
-    precomputed for the chunk indices that can occur (`nchunks`). -/
-def nonce12 (nonce8 : Bytes) (i : Nat) : ByteArray :=
-  ⟨(nonce8 ++ [(i >>> 24).toUInt8, (i >>> 16).toUInt8, (i >>> 8).toUInt8, i.toUInt8]).toArray⟩
-
-def nativePrims (key nonce8 : Bytes) (chunk nchunks : Nat) : EncPrims :=
-  let k : ByteArray := ⟨key.toArray⟩
-  let gk := MlaModel.Crypto.GcmKey.new k
-  let table : Array ByteArray := (List.range nchunks).toArray.map fun i =>
-    gk.ctrXor (nonce12 nonce8 i) 2 (ByteArray.mk (Array.replicate chunk 0))
-  { ks := fun i off => match table[i]? with
-      | some row => row.get! off
-      | none => 0
-    tag := fun i ct => (gk.tag (nonce12 nonce8 i) ByteArray.empty ⟨ct.toArray⟩).toList }
+/-! Encryption primitives for the driver: `nativePrims` (AES-256-GCM from MlaModel.Crypto with key +
+    8-byte archive nonce, chunk `i` under nonce `nonce8 ‖ be32 i`) lives in MlaModel/Native.lean. -/
 
 /-- toy primitives (for protocol tests) -/
 def toyPrims : EncPrims :=
@@ -151,7 +139,7 @@ namespace Driver
 open MlaModel Lean
 
 /-- open + list + read every file (in index order, or the order given) over a layer stack -/
-def archiveReadOver {σ : Type} [Stream σ] (P : Params) (s : σ) (n : Nat) (order : List Bytes) : Json :=
+def archiveReadOver {σ : Type} [Stream σ] (P : Params) (s : σ) (slen : Nat) (n : Nat) (order : List Bytes) : Json :=
   match parseFooterS utf8 s with
   | (_, .error e) => Json.mkObj [("open", errJson e)]
   | (s, .ok ix) =>
@@ -163,11 +151,14 @@ def archiveReadOver {σ : Type} [Stream σ] (P : Params) (s : σ) (n : Nat) (ord
         match BtfS.new P utf8 s fi.offsets with
         | .error e => (s, acc ++ [Json.mkObj [("name", jhex name), ("result", errJson e), ("data", jhex [])]])
         | .ok b =>
-          let (b', data, err) := readWholeS P utf8 n (data_fuel fi.size) b []
+          let (b', data, err) := readWholeS P utf8 n (data_fuel fi.offsets) b []
           (b'.src, acc ++ [Json.mkObj [("name", jhex name), ("size", jnat fi.size),
             ("result", match err with | none => Json.str "ok" | some e => errJson e), ("data", jhex data)]])
     Json.mkObj [("open", Json.str "ok"), ("index", indexJson ix), ("files", Json.arr files.toArray)]
-where data_fuel (sz : Nat) : Nat := sz + 64
+where
+  /-- adequate for any index (C08): every non-empty read moves forward in the plaintext stream
+      (at most `slen` bytes, `slen` ≥ its length) or uses up one offset -/
+  data_fuel (offs : List Nat) : Nat := (offs.length + 1) * (slen + 1) + 1
 
 /-- `archive.read`: bytes after the header, layers (0 none, 1 encrypt), key material → per-file results -/
 def cmdArchiveRead (j : Json) : Json :=
@@ -179,7 +170,7 @@ def cmdArchiveRead (j : Json) : Json :=
     let C := primsOf j P body.length
     match EncR.init (ι := Cur) P C ⟨body, 0⟩ with
     | (_, .error e) => Json.mkObj [("open", errJson e)]
-    | (r, .ok _) => archiveReadOver P (⟨r⟩ : EncRd P C Cur) n order
-  else archiveReadOver P (⟨body, 0⟩ : Cur) n order
+    | (r, .ok _) => archiveReadOver P (⟨r⟩ : EncRd P C Cur) body.length n order
+  else archiveReadOver P (⟨body, 0⟩ : Cur) body.length n order
 
 end Driver
